@@ -3604,8 +3604,16 @@ func (c *Call) String() string {
 		str = append(str, arg.String())
 	}
 
+	// Quote the function name if it would not lex as a bare identifier
+	// (distinct is the one keyword the parser accepts in front of a
+	// parenthesis).
+	name := c.Name
+	if name != "distinct" && IdentNeedsQuotes(name) {
+		name = QuoteIdent(name)
+	}
+
 	// Write function name and args.
-	return fmt.Sprintf("%s(%s)", c.Name, strings.Join(str, ", "))
+	return fmt.Sprintf("%s(%s)", name, strings.Join(str, ", "))
 }
 
 // Distinct represents a DISTINCT expression.
